@@ -111,7 +111,11 @@ def templates():
     T["expr:call_order"] = ("log(probe(0, ident)(probe(1, a), *probe(2, [b]), k=probe(3, a), **probe(4, {'z': b})))\n", AB, "True")
     T["expr:comp"] = ("log([probe(0, x) for x in probe(1, [a, b, a]) if probe(2, x != b)])\nlog({probe(3, x): probe(4, a) for x in probe(5, [a, b])})\n", AB, "True")
     T["expr:ifexp_boolop"] = ("log(probe(0, a) if probe(1, a > b) else probe(2, b))\nlog(probe(3, a) and probe(4, b) or probe(5, 7))\nlog(probe(6, a) < probe(7, b) < probe(8, 10))\n", AB, "True")
-    T["expr:fstring"] = ("log(f'{probe(0, a):{probe(1, 3)}}|{probe(2, b)!r:>{probe(3, 4)}}')\n", AB, "0 <= a <= 99 and 0 <= b <= 99")
+    # (concrete values: CrossHair cannot format a symbolic int with a computed format spec; the
+    # order and count of the evaluations do not depend on the values)
+    # a conversion together with ANY format spec (f'{x!r:>4}') makes CrossHair 0.0.110 abort the path
+    # ("Format specifier must be a string, not FormatStashingValue"): the two are in separate fields
+    T["expr:fstring"] = ("log(f'{probe(0, 7):{probe(1, 3)}}|{probe(2, 42)!r}|{probe(3, 5):>{probe(4, 4)}}')\n", [], "True")
     T["expr:lambda_default"] = ("g = lambda p=probe(0, a): probe(1, p)\nlog(g(), g(b))\n", AB, "True")
     T["expr:walrus"] = ("log((w := probe(0, a)) + probe(1, w))\nlog(w)\n", [("a", "int")], "True")
     T["expr:subscript_slice"] = ("log(probe(0, L)[probe(1, 1):probe(2, 3)], probe(3, D)[probe(4, 'k')])\n", [], "True")
